@@ -393,11 +393,12 @@ func (ex *Exec) applyIterator(st *State, fc *FuncContract, pc *preparedCall, env
 	ex.assertInvsNamed(st, "clo-entry", ord, ls, pos, extraOf(yieldedEmpty))
 	// 2. havoc what the literal assigns
 	st2 := st.clone()
+	st2.setEntry(ord, st)
 	ex.havocAssigned(st2, lit.Body)
 	if keySort != nil {
 		yielded = Val{T: ex.fresh("yielded", yieldedEmpty.S), S: yieldedEmpty.S}
 	}
-	ex.assumeInvs(st2, ls, pos, extraOf(yielded))
+	ex.assumeInvs(st2, ord, ls, pos, extraOf(yielded))
 	errIdx := -1
 	rnames := resultNames(fc, sig)
 	for i, n := range rnames {
@@ -540,9 +541,16 @@ func (ex *Exec) scanEffects(n ast.Node, vars map[types.Object]bool, eff *effects
 				e = x.X
 			case *ast.SelectorExpr:
 				if sel := info.Selections[x]; sel != nil && sel.Kind() == types.FieldVal {
-					if _, isPtr := under(ex.typeOf(x.X)).(*types.Pointer); isPtr {
+					if pt, isPtr := under(ex.typeOf(x.X)).(*types.Pointer); isPtr {
 						if eff != nil {
-							eff.heapAll = true // conservative: a field store
+							if idx := sel.Index(); len(idx) == 1 {
+								// a store into (or below) field f of *T touches heap component T.f only
+								if stt, ok := under(pt.Elem()).(*types.Struct); ok {
+									eff.comps[ex.compName(pt.Elem(), stt.Field(idx[0]).Name())] = true
+									return nil
+								}
+							}
+							eff.heapAll = true // conservative: a field store through an embedded path
 						}
 						return nil
 					}
@@ -571,10 +579,40 @@ func (ex *Exec) scanEffects(n ast.Node, vars map[types.Object]bool, eff *effects
 		}
 	}
 	ast.Inspect(n, func(m ast.Node) bool {
+		if stmt, ok := m.(ast.Stmt); ok && eff != nil && ex.fc != nil && len(ex.fc.GhostUpd) > 0 {
+			if _, isBlock := stmt.(*ast.BlockStmt); !isBlock {
+				text := normalizeStmtText(nodeString(ex.fset, stmt))
+				for _, g := range ex.fc.GhostUpd {
+					if strings.HasPrefix(text, normalizeStmtText(g.Anchor)) {
+						eff.ghost[g.Name] = true
+					}
+				}
+			}
+		}
 		switch s := m.(type) {
 		case *ast.AssignStmt:
 			for _, l := range s.Lhs {
 				mark(l)
+			}
+			// x := E[k] with a map-typed element: x aliases E[k]; if n also mutates x, E changes with it
+			if len(s.Rhs) == 1 && len(s.Lhs) >= 1 {
+				if ix, ok := unparen(s.Rhs[0]).(*ast.IndexExpr); ok {
+					if tv, ok := info.Types[ix.X]; ok && tv.Type != nil {
+						if mt, ok := under(tv.Type).(*types.Map); ok {
+							if _, inner := under(mt.Elem()).(*types.Map); inner {
+								if id, ok := unparen(s.Lhs[0]).(*ast.Ident); ok && id.Name != "_" {
+									o := info.Defs[id]
+									if o == nil {
+										o = info.Uses[id]
+									}
+									if o != nil && ex.mutatesMapVar(n, o) {
+										mark(ix.X)
+									}
+								}
+							}
+						}
+					}
+				}
 			}
 		case *ast.IncDecStmt:
 			mark(s.X)
@@ -750,6 +788,78 @@ func calleeOf(info *types.Info, call *ast.CallExpr) types.Object {
 	return nil
 }
 
+// mutatesMapVar: does n write through the map variable (x[k] = v, delete(x, k), clear(x)) or hand it
+// to a call that may?
+func (ex *Exec) mutatesMapVar(n ast.Node, obj types.Object) bool {
+	found := false
+	isObj := func(e ast.Expr) bool {
+		id, ok := unparen(e).(*ast.Ident)
+		return ok && (ex.info.Uses[id] == obj || ex.info.Defs[id] == obj)
+	}
+	ast.Inspect(n, func(m ast.Node) bool {
+		switch s := m.(type) {
+		case *ast.AssignStmt:
+			for _, l := range s.Lhs {
+				if ix, ok := unparen(l).(*ast.IndexExpr); ok && isObj(ix.X) {
+					found = true
+				}
+			}
+		case *ast.IncDecStmt:
+			if ix, ok := unparen(s.X).(*ast.IndexExpr); ok && isObj(ix.X) {
+				found = true
+			}
+		case *ast.CallExpr:
+			if id, ok := unparen(s.Fun).(*ast.Ident); ok {
+				if b, ok := ex.info.Uses[id].(*types.Builtin); ok {
+					if (b.Name() == "delete" || b.Name() == "clear") && len(s.Args) > 0 && isObj(s.Args[0]) {
+						found = true
+					}
+					return !found
+				}
+			}
+			for i, a := range s.Args {
+				if isObj(a) && !ex.calleeKeepsParam(s, i) {
+					found = true
+				}
+			}
+		}
+		return !found
+	})
+	return found
+}
+
+// calleeKeepsParam: the callee has a contract that does not list parameter i under `modifies`.
+func (ex *Exec) calleeKeepsParam(call *ast.CallExpr, i int) bool {
+	var fn *types.Func
+	switch f := unparenIndex(call.Fun).(type) {
+	case *ast.Ident:
+		fn, _ = ex.info.Uses[f].(*types.Func)
+	case *ast.SelectorExpr:
+		fn, _ = ex.info.Uses[f.Sel].(*types.Func)
+	}
+	if fn == nil {
+		return false
+	}
+	fc := ex.cs.Funcs[funcKey(fn)]
+	if fc == nil {
+		return false
+	}
+	sig := fn.Type().(*types.Signature)
+	if i >= sig.Params().Len() {
+		return false
+	}
+	pn := sig.Params().At(i).Name()
+	if i < len(fc.ParamNames) && fc.ParamNames[i] != "" {
+		pn = fc.ParamNames[i]
+	}
+	for _, m := range fc.Modifies {
+		if m == pn || m == "param "+pn {
+			return false
+		}
+	}
+	return true
+}
+
 // havocAssigned forgets everything the node may change.
 func (ex *Exec) havocAssigned(st *State, n ast.Node) {
 	vars := map[types.Object]bool{}
@@ -763,7 +873,17 @@ func (ex *Exec) havocAssigned(st *State, n ast.Node) {
 				}
 				continue
 			}
+			lk := st.aliasLinks[obj]
 			ex.havocVar(st, obj)
+			if lk != nil {
+				if ex.reassignsVar(n, obj) {
+					// the code may re-point the variable: the link is not known at this point
+					st.setLink(obj, nil)
+				} else {
+					// the variable still denotes base[key]: the element changes with it
+					ex.writeBackLink(st, obj, lk)
+				}
+			}
 		}
 	}
 	if eff.heapAll {
@@ -775,6 +895,9 @@ func (ex *Exec) havocAssigned(st *State, n ast.Node) {
 	}
 	for g := range eff.ghost {
 		ex.ghostHavoc(st, g)
+	}
+	if !eff.heapAll {
+		ex.advanceAlloc(st)
 	}
 }
 
